@@ -130,12 +130,18 @@ type closeEv struct {
 }
 
 func freePort() int {
-	l, err := net.Listen("tcp", "127.0.0.1:0")
-	if err != nil {
-		panic(err)
+	// the ephemeral range can be exhausted for a moment by sockets in TIME_WAIT: be patient, not fatal
+	var err error
+	for i := 0; i < 600; i++ {
+		var l net.Listener
+		l, err = net.Listen("tcp", "127.0.0.1:0")
+		if err == nil {
+			defer l.Close()
+			return l.Addr().(*net.TCPAddr).Port
+		}
+		time.Sleep(100 * time.Millisecond)
 	}
-	defer l.Close()
-	return l.Addr().(*net.TCPAddr).Port
+	panic(err)
 }
 
 // newSrv builds (but does not run) a server with a fresh mux.
